@@ -52,6 +52,7 @@ from ..ispace_lite import (
     _as_term,
     deps_of,
     func_params,
+    has_havoc,
     head_name,
     kwarg_term,
     leaves,
@@ -594,6 +595,8 @@ def rule_mpibc(rep: Report, ix: Index) -> None:
             raise AnalysisError(f"{f.ref}: `self.{name}` is not assigned exactly once")
         v = sets[0][3]
         probs = []
+        if has_havoc(v):
+            raise AnalysisError(f"{f.ref}: `self.{name}` depends on a statement outside the grammar: {ev.skipped}")
         if not (isinstance(v, tuple) and len(v) == 2 and v[0] == ELLIPSIS and isinstance(v[1], StarV) and isinstance(v[1].value, PyList)):
             raise AnalysisError(f"{f.ref}: `self.{name}` = `{_as_term(v)}` is not `(Ellipsis, *idx)`")
         lst: PyList = v[1].value
